@@ -1329,7 +1329,7 @@ def family_sequence(site, consts, sizes, key):
 def local_names(site, key):
     """names of the local variables declared in the site's function (source order)"""
     fn = find_function(clang_docs(site["filter"], key), site)
-    names = []
+    names = [p.get("name") for p in fn.get("inner", []) if p.get("kind") == "ParmVarDecl" and p.get("name")]
     for n in walk([c for c in fn["inner"] if c.get("kind") == "CompoundStmt"][0]):
         if n.get("kind") == "VarDecl" and n.get("name") and n["name"] not in names:
             names.append(n["name"])
@@ -1404,6 +1404,47 @@ def chash(n):
 def site_chash(site, key):
     fn = find_function(clang_docs(site["filter"], key), site)
     return chash(select(fn, site.get("select", "function")))
+
+
+def nth_if(fn, nth):
+    """the N-th IfStmt of the function (source order) as (condition, then, else-or-None)"""
+    body = [c for c in fn["inner"] if c.get("kind") == "CompoundStmt"][0]
+    i = 0
+    for n in walk(body):
+        if n.get("kind") == "IfStmt":
+            if i == nth:
+                ch = [c for c in strip_comments(n) if c.get("kind") != "DeclStmt"]
+                return ch[0], ch[1], (ch[2] if len(ch) > 2 else None)
+            i += 1
+    raise Broken(f"if #{nth} not found")
+
+
+def if_branch_hashes(site, key):
+    """[hash(then), hash(else)] for a plain `if:N` selector, else None"""
+    m = re.fullmatch(r"if:(\d+)", site.get("select", ""))
+    if not m:
+        return None
+    fn = find_function(clang_docs(site["filter"], key), site)
+    _c, t, e = nth_if(fn, int(m.group(1)))
+    return [chash(t), chash(e) if e is not None else None]
+
+
+def negated_if(site, key, lk):
+    """`if (C) A else B` rewritten as `if (!(C)) B else A`: the condition is the negation of the locked one and
+    the two branches changed places"""
+    m = re.fullmatch(r"if:(\d+)", site.get("select", ""))
+    if not m or not lk.get("branches") or lk["branches"][1] is None:
+        return False
+    fn = find_function(clang_docs(site["filter"], key), site)
+    c, t, e = nth_if(fn, int(m.group(1)))
+    while c.get("kind") in ("ParenExpr", "ExprWithCleanups") and c.get("inner"):
+        c = strip_comments(c)[-1]
+    if not (c.get("kind") == "UnaryOperator" and c.get("opcode") == "!") or e is None:
+        return False
+    x = strip_comments(c)[0]
+    while x.get("kind") == "ParenExpr" and x.get("inner"):
+        x = strip_comments(x)[-1]
+    return chash(x) == lk.get("chash") and [chash(e), chash(t)] == lk["branches"]
 
 
 def embed_index(old, new, idx):
@@ -1550,6 +1591,8 @@ def main():
     relock = "--relock" in sys.argv or not os.path.exists(lock_path)
     lock = {} if relock else json.load(open(lock_path))
     relocated = {}
+    by_name = {x["lean"]: x for x in sites}
+
     def with_relocation(s):
         """translate `s`; when the expression at the locked position is not the locked one (or the selector no
         longer resolves) and the function only GAINED members of the selector's family — e.g. a guard inserted
@@ -1590,6 +1633,15 @@ def main():
                     if site_chash(s, key) == lk["chash"]:
                         SIGNATURES[s["lean"]] = lk["sig"]; ALPHA[s["lean"]] = lk["alpha"]
                         relocated[s["lean"]] = f"{s.get('select')} operands of commutative operator(s) exchanged; locked text kept"
+                        return lk["text"]
+                except Broken:
+                    pass
+            if lk.get("text"):
+                # `if (C) A else B` became `if (!(C)) B else A`
+                try:
+                    if negated_if(s, key, lk):
+                        SIGNATURES[s["lean"]] = lk["sig"]; ALPHA[s["lean"]] = lk["alpha"]
+                        relocated[s["lean"]] = f"{s.get('select')} condition negated and branches exchanged; locked text kept"
                         return lk["text"]
                 except Broken:
                     pass
@@ -1654,16 +1706,32 @@ def main():
                     chs[st["lean"]] = site_chash(st, key)
                 except Exception:
                     pass
+        brs = {}
+        for st in sites:
+            if status.get(st["lean"]) == "ok":
+                try:
+                    brs[st["lean"]] = if_branch_hashes(st, key)
+                except Exception:
+                    pass
         cur_lock = {k: {"sig": v, "alpha": ALPHA.get(k, ""), "seq": seqs.get(k), "locals": locs.get(k),
-                        "chash": chs.get(k), "text": TEXTS.get(k)}
+                        "chash": chs.get(k), "text": TEXTS.get(k), "branches": brs.get(k)}
                     for k, v in SIGNATURES.items()}
         json.dump(cur_lock, open(lock_path, "w"), indent=0, sort_keys=True)
     else:
         for k, v in SIGNATURES.items():
             if k in lock and status.get(k) == "ok" and lock[k]["sig"] != v:
-                # same types and same body up to the names of the parameters: a renaming in the C++ source
+                # same types and same body up to the names of plain locals/parameters: a renaming in the C++
+                # source — provided the old name is gone and the new one is new (using ANOTHER existing
+                # variable of the same type is a change of meaning, not a renaming)
                 if lock[k]["alpha"] == ALPHA.get(k, ""):
-                    continue
+                    oldn = re.findall(r"\((\S+) :", lock[k]["sig"]); newn = re.findall(r"\((\S+) :", v)
+                    try:
+                        cur = {lname(x) for x in local_names(by_name[k], key)}
+                    except Exception:
+                        cur = set()
+                    was = {lname(x) for x in (lock[k].get("locals") or [])}
+                    if len(oldn) == len(newn) and all(o == n or (o not in cur and n not in was) for o, n in zip(oldn, newn)):
+                        continue
                 status[k] = f"signature-changed: was `{lock[k]['sig']}` now `{v}`"
     json.dump({"repo_hash": key, "sites": status, "relocated": relocated},
               open(os.path.join(BUILD, "gen_status.json"), "w"), indent=1)
